@@ -29,17 +29,8 @@ fn units(thorough: bool) -> Vec<Unit> {
         d[n - 1] = d[n - 2];
         out.push(Unit { alpha: order_alphabet(&d), positive: true, nasty: false, ends: d });
     }
-    for n in threshold_sizes(thorough) {
-        if n > 17 {
-            let ends = iota(n);
-            out.push(Unit { alpha: order_alphabet(&ends), positive: true, nasty: false, ends });
-            let mut d = iota(n);
-            for i in (n / 3)..(n / 3 + n / 4) {
-                d[i] = d[n / 3];
-            }
-            d.sort_by(|a, b| a.partial_cmp(b).unwrap());
-            out.push(Unit { alpha: order_alphabet(&d), positive: true, nasty: false, ends: d });
-        }
+    for ends in big_shapes(thorough, 1025) {
+        out.push(Unit { alpha: order_alphabet(&ends), positive: false, nasty: false, ends });
     }
     // magnitudes and nearly equal ends
     for vals in [vec![-1e6, -1.0, 1e-7, 1e6, 1e7], vec![1.0, 1.0 + 1e-10, 1.0 + 2e-10, 1.0 + 1e-9], vec![1e5, 1e5 * (1.0 + 1e-12), 1e6, 3e6, 1e7]] {
